@@ -1131,6 +1131,9 @@ class xfunc_quantile(xfunc):
                     valid = ~missing
                     a = a[valid]
                     w = w[valid]
+            elif numpy.isnan(a).any() or numpy.isnan(w).any():
+                # Propagate missing values.
+                return NaN
 
             N = len(w)
             if N == 0:
